@@ -326,16 +326,17 @@ def main():
             bad = c15_oracle.check_ml(case, r, light=True)
             return {'bad': bad, 'case': case, 'impl': r} if bad else None
 
-        CHUNK = 256
+        CHUNK = 1024
         for a in range(0, len(idxs), CHUNK):
             chunk = idxs[a:a + CHUNK]
             res = isolated(lambda: [eval_idx(i) for i in chunk])
             if isinstance(res, dict) and 'error' in res:
                 crashed_chunks += 1
                 res = []
+                ncrash = 0
                 for i in chunk:
-                    if len([f for f in fails if f.get('crash')]) >= 3:
-                        break
+                    if ncrash >= 2:
+                        break       # two crashing patterns of this chunk are enough; the rest is not evaluated
                     ri = isolated(lambda: eval_idx(i))
                     if isinstance(ri, dict) and 'error' in ri:
                         kc = c15_oracle.sweep_kronp_case(blocks, i) if kp else c15_oracle.sweep_case(blocks, i)
@@ -343,6 +344,7 @@ def main():
                                        'the interpreter died while answering nonzero/per-row/per-column%s queries on this pattern: %s' % (
                                            '/kron_partial' if kp else '', ri.get('msg'))]],
                               'case': kc, 'impl': ri, 'crash': True}
+                        ncrash += 1
                     res.append(ri)
             for idx, f in zip(chunk, res):
                 count += 1
@@ -350,27 +352,45 @@ def main():
                     nontrivial += 1
                 if f:
                     fails.append(f if len(fails) < 6 or f.get('crash') else {'bad': f['bad'][:1]})
-            if crashed_chunks >= 8:
+            if crashed_chunks >= 2:
                 break       # the same crash everywhere: stop, the evaluated count says how far we got
         return {'count': count, 'nontrivial': nontrivial, 'fails': fails[:200], 'crashed_chunks': crashed_chunks}
 
     runners = {'sweep': run_sweep, 'hist': run_hist, 'ml': run_ml, 'reindex': run_reindex, 'kvs': run_kvs, 'kronp': run_kronp, 'gen': run_gen}
     out = []
-    for c in payload['cases']:
-        if c['kind'] == 'sweep':
-            r = _guarded_plain(lambda: run_sweep(c))
-        else:
-            # one forked child per case; if it dies, repeat the case with every sub-call in its
-            # own child so that the crashing call is identified and the others still answer
-            r = isolated(lambda: runners[c['kind']](c))
-            if isinstance(r, dict) and r.get('error') == 'Crash':
-                _ISOLATE_SUBCALLS[0] = True
-                try:
-                    r2 = _guarded_plain(lambda: runners[c['kind']](c))
-                finally:
-                    _ISOLATE_SUBCALLS[0] = False
-                r = r2 if not (isinstance(r2, dict) and 'error' in r2) else r
-        out.append(r)
+    def run_case(c):
+        return _guarded_plain(lambda: runners[c['kind']](c))
+
+    def run_case_safe(c):
+        # one forked child for the case; if it dies, repeat the case with every sub-call in its
+        # own child so that the crashing call is identified and the others still answer
+        r = isolated(lambda: runners[c['kind']](c))
+        if isinstance(r, dict) and r.get('error') == 'Crash':
+            _ISOLATE_SUBCALLS[0] = True
+            try:
+                r2 = run_case(c)
+            finally:
+                _ISOLATE_SUBCALLS[0] = False
+            r = r2 if not (isinstance(r2, dict) and 'error' in r2) else r
+        return r
+
+    cases = payload['cases']
+    GROUP = 32
+    a = 0
+    while a < len(cases):
+        if cases[a]['kind'] == 'sweep':
+            out.append(_guarded_plain(lambda: run_sweep(cases[a])))
+            a += 1
+            continue
+        grp = []
+        while a < len(cases) and cases[a]['kind'] != 'sweep' and len(grp) < GROUP:
+            grp.append(cases[a])
+            a += 1
+        # a group of cases per forked child; only a group whose child died is repeated case by case
+        res = isolated(lambda: [run_case(c) for c in grp])
+        if isinstance(res, dict) and 'error' in res:
+            res = [run_case_safe(c) for c in grp]
+        out += res
     print(json.dumps({'results': out, 'probe': {'rect_ok': rect_ok, 'out': pr}}))
 
 
